@@ -51,7 +51,7 @@ def check_gf(c, m, p, im, r, beta, route, rep):
             got = exact.cplx(v)
             tol = 1e-9 * tot + drop_bound(p, gf, i, j, z) + 1e-13
             c.evaluations += 1
-            if abs(got - want) > tol:
+            if not (abs(got - want) <= tol):
                 c.violation("model %s beta=%s %s: G_%d%d(%s=%s) = %s, definition gives %s (allowed deviation %s)" % (
                     json.dumps({k: m[k] for k in ("M", "eps", "U", "rot", "bog")}), beta, route, o["i"], o["j"], kind, arg, mp.nstr(got, 12), mp.nstr(want, 12), mp.nstr(tol, 3)),
                     dict(rep, component=[o["i"], o["j"]], arg=[kind, arg]), cls="value")
